@@ -62,6 +62,33 @@ func genScenario(r *lib.Rng, cp int, i int) Case {
 		g.send(w2, maxMessage+1) // one byte more: the WRITER is dropped, nobody receives it
 		g.send(w1, 126)
 		g.send(w1, 1<<20)
+	case i%8 == 2:
+		c.Kind = "backlog"
+		// more than 10 MiB of messages whose size does not divide 10 MiB wait in a reader's queue and
+		// are then written as merged frames: no frame may end inside a message
+		w := g.join(rw, false)
+		slow := g.join([]string{"read"}, true)
+		if r.Bool() {
+			g.join([]string{"read"}, false)
+		}
+		g.send(w, 126)
+		g.ops = append(g.ops, Op{K: "stall", N: slow})
+		unit := 3 << 20
+		if cp < 3 {
+			unit = 6 << 20
+		}
+		n := 12
+		if cp+5 < n {
+			n = cp + 5
+		}
+		for k := 0; k < n; k++ {
+			g.send(w, unit+[]int{0, 0, 17, -4099, 1}[r.Intn(5)])
+		}
+		for k := r.Range(0, 3); k > 0; k-- {
+			g.send(w, smallSizes[r.Intn(len(smallSizes))])
+		}
+		g.ops = append(g.ops, Op{K: "unstall", N: slow})
+		g.send(w, 125)
 	case i%8 == 6 && cp <= 8:
 		c.Kind = "zombie"
 		// a stalled connection with read and write scope is dropped for its full queue; its writer is
@@ -193,8 +220,9 @@ func genScenario(r *lib.Rng, cp int, i int) Case {
 			}
 			// blockers: enough bytes to fill the socket buffers so the relay's writer blocks mid-frame
 			if r.Bool() {
+				bsz := []int{1 << 20, 3 << 20, 1<<20 + 4099, 700001}[r.Intn(4)]
 				for k := r.Range(4, 10); k > 0; k-- {
-					g.send(ws[r.Intn(len(ws))], 1<<20)
+					g.send(ws[r.Intn(len(ws))], bsz)
 				}
 			} else {
 				bs := []int{65535, 65536}[r.Intn(2)]
